@@ -9,7 +9,7 @@
                         reports a parent directory for (IN_ATTRIB|IN_ISDIR, IN_DELETE_SELF, IN_IGNORED, ...)
      fs_names_ok t / op_names_ok o  :=  valid_name (basename p) for every entry path / operation path
      path_inv root r :=  every value of _path_for_wd, every key of _wd_for_path, every source in _moved_from_events
-                         is rooted
+                         and the path of the remembered _moved_out_candidate (repair F10) is rooted
    valid_name: non-empty, no '/', no NUL - any other byte, decodable or not.  The root is any non-empty byte string
    that does not end in '/'. *)
 Require Import WD.Base.Prelude WD.Base.BStr WD.Model.SubEvents WD.Model.Emitter WD.Model.Fs WD.Model.Reader
